@@ -214,7 +214,7 @@ def edits_strategy(tier):
     types = ["emg", "platCal", "data3D", "force3D", "events", "optical", "platData", "data2D", "events"]
     return st.sampled_from(types).flatmap(lambda t: st.fixed_dictionaries({
         "spec": specs.SPEC[t](tier, 2), "hints": specs.HINTS,
-        "edits": st.lists(st.tuples(st.sampled_from(["remove", "remove", "add", "inplace", "assign-refused", "assign-iter"]), st.integers(0, 50)).map(list), min_size=1, max_size=5)}))
+        "edits": st.lists(st.tuples(st.sampled_from(["remove", "remove", "add", "inplace", "assign-refused", "assign-iter", "via-shallow-copy"]), st.integers(0, 50)).map(list), min_size=1, max_size=5)}))
 
 
 def run_edits(ctx, case):
@@ -229,8 +229,33 @@ def run_edits(ctx, case):
         cls = specs.lib_class(t)
         fresh = specs.build(spec, hints)  # a second, independent copy to take new items from
         check_sizes(ctx, t, f"{t}-before-edits", blk, lambda: specs.lib_write(blk), lambda s_: cls._build(s_, spec["format"]))  # sizes are read once before editing
+        twin = None
         for kind, k in case["edits"]:
             try:
+                if kind == "via-shallow-copy":
+                    # copy.copy(block) shares the block's containers with it: an item removed or added through the copy is gone from / present in
+                    # both, and both must keep telling the truth about their size
+                    import copy as _copy
+
+                    twin = _copy.copy(blk)
+                    tgt = twin
+                    if t == "emg" and list(tgt):
+                        tgt.removeSignal(list(tgt)[k % len(list(tgt))].label)
+                    elif t == "platCal" and len(tgt):
+                        tgt.remove_platform(k % len(tgt))
+                    elif t in ("data3D", "force3D") and tgt.tracks:
+                        del tgt.tracks[k % len(tgt.tracks)]
+                    elif t == "events" and tgt.events:
+                        del tgt.events[k % len(tgt.events)]
+                    elif t == "optical" and tgt.channels:
+                        del tgt.channels[k % len(tgt.channels)]
+                    else:
+                        twin = None
+                        continue
+                    done += 1
+                    check_sizes(ctx, t, f"{t}-shallow-copy-after-edit", twin, lambda: specs.lib_write(twin), lambda s_: cls._build(s_, spec["format"]))
+                    check_sizes(ctx, t, f"{t}-original-after-edit-through-shallow-copy", blk, lambda: specs.lib_write(blk), lambda s_: cls._build(s_, spec["format"]))
+                    continue
                 if kind == "inplace":
                     # content changed through public attributes of the block / its items, sizes re-read afterwards
                     if t == "data2D":
